@@ -133,10 +133,10 @@ def site_strategy():
     from hypothesis import strategies as st
 
     return st.one_of(
-        st.tuples(st.just("nnx"), st.integers(0, 1), st.sampled_from([1.0, 2.0]), st.sampled_from(["tanh", "relu"]), st.sampled_from([1.0, 3.0])).map(list),
+        st.tuples(st.just("nnx"), st.integers(0, 1), st.sampled_from([1.0, 2.0]), st.sampled_from(["tanh", "relu"]), st.sampled_from([1.0, 3.0, -1.0, -2.0])).map(list),
         st.tuples(st.just("eqx"), st.integers(0, 1), st.integers(1, 2)).map(list),
         st.tuples(st.just("cls"), st.integers(0, 1), st.sampled_from(["add", "mul"])).map(list),
-        st.tuples(st.just("fn"), st.sampled_from([1.0, 2.0, -1.0])).map(list),
+        st.tuples(st.just("fn"), st.sampled_from([1.0, 2.0, -1.0, -2.0])).map(list),
         st.tuples(st.just("g"), st.sampled_from([0.5, 2.0])).map(list),
         st.tuples(st.just("outer")).map(list),
     )
